@@ -429,6 +429,59 @@ static void h_op(void)
     if (dup) { h_out("%s dup=%s", h_status(st), h_hex(dup, DL + 2)); free(dup); }
     else h_out("%s dup=null", h_status(st));
   }
+  else if (!strcmp(op, "sqget2")) {
+    /* two successive esl_sq_GetFromMSA calls into the same ESL_SQ (one-row alignments of different widths), esl_sq_Reuse in between */
+    const char *mode = h_arg("mode"); int dig = mode && !strcmp(mode, "digital"); int k, bad = 0; int64_t i; ESL_SQ *sq; char *b = NULL; size_t cap = 0, len = 0; char tmp[64];
+    unsigned char *row[2], *ss[2] = { NULL, NULL }; int64_t rn[2], sn; ESL_MSA *msa[2] = { NULL, NULL };
+    row[0] = h_unhex(h_arg("row1") ? h_arg("row1") : "-", &rn[0]); row[1] = h_unhex(h_arg("row2") ? h_arg("row2") : "-", &rn[1]);
+    if (h_arg("ss1")) { ss[0] = h_unhex(h_arg("ss1"), &sn); if (sn != rn[0] || (int64_t) strlen((char *) ss[0]) != sn) bad = 1; }
+    if (h_arg("ss2")) { ss[1] = h_unhex(h_arg("ss2"), &sn); if (sn != rn[1] || (int64_t) strlen((char *) ss[1]) != sn) bad = 1; }
+    for (k = 0; k < 2; k++) {
+      if (rn[k] == 0) bad = 1;
+      if (dig) { for (i = 0; i < rn[k]; i++) if (row[k][i] >= A->Kp) bad = 1; }
+      else if ((int64_t) strlen((char *) row[k]) != rn[k]) bad = 1;
+    }
+    if (bad) { for (k = 0; k < 2; k++) { free(row[k]); if (ss[k]) free(ss[k]); } h_out("bad-op"); return; }
+    sq = dig ? esl_sq_CreateDigital(A) : esl_sq_Create();
+    b = bufcat(b, &cap, &len, "ok");
+    for (k = 0; k < 2 && !bad; k++) {
+      int st;
+      msa[k] = dig ? esl_msa_CreateDigital(A, 1, rn[k]) : esl_msa_Create(1, rn[k]);
+      esl_msa_SetSeqName(msa[k], 0, "s0", -1); msa[k]->nseq = 1;
+      if (dig) { msa[k]->ax[0][0] = msa[k]->ax[0][rn[k] + 1] = eslDSQ_SENTINEL; memcpy(msa[k]->ax[0] + 1, row[k], (size_t) rn[k]); }
+      else memcpy(msa[k]->aseq[0], row[k], (size_t) rn[k] + 1);
+      if (ss[k]) { msa[k]->ss = malloc(sizeof(char *) * (size_t) msa[k]->sqalloc); for (i = 0; i < msa[k]->sqalloc; i++) msa[k]->ss[i] = NULL; msa[k]->ss[0] = strdup((char *) ss[k]); }
+      if (k == 1) esl_sq_Reuse(sq);
+      st = esl_sq_GetFromMSA(msa[k], 0, sq);
+      if (h_exception_seen || st != eslOK) { bad = 1; break; }
+      sprintf(tmp, " n%d=%" PRId64 " seq%d=", k + 1, sq->n, k + 1); b = bufcat(b, &cap, &len, tmp);
+      b = bufcat(b, &cap, &len, dig ? h_hex(sq->dsq, sq->n + 2) : h_hex(sq->seq, (int64_t) strlen(sq->seq)));
+      sprintf(tmp, " ss%d=", k + 1); b = bufcat(b, &cap, &len, tmp);
+      b = bufcat(b, &cap, &len, sq->ss ? h_hex(sq->ss + (dig ? 1 : 0), (int64_t) strlen(sq->ss + (dig ? 1 : 0))) : "null");
+    }
+    if (bad) h_out("%s%s", h_exception_seen ? "exception " : "failed ", h_status(h_exception_seen)); else h_out("%s", b);
+    free(b); esl_sq_Destroy(sq);
+    for (k = 0; k < 2; k++) { if (msa[k]) esl_msa_Destroy(msa[k]); free(row[k]); if (ss[k]) free(ss[k]); }
+  }
+  else if (!strcmp(op, "sqfetch")) {
+    /* esl_sq_FetchFromMSA on a one-row alignment (text rows: row=<bytes>; digital: row=<codes>), optional #=GR SS line */
+    const char *mode = h_arg("mode"); int dig = mode && !strcmp(mode, "digital"); int64_t nss = 0, i; ESL_MSA *msa; ESL_SQ *sq = NULL; int st;
+    unsigned char *row = h_unhex(h_arg("row") ? h_arg("row") : "-", &n), *ss = NULL;
+    if (h_arg("ss")) { ss = h_unhex(h_arg("ss"), &nss); if (nss != n || (int64_t) strlen((char *) ss) != n) { free(row); free(ss); h_out("bad-op"); return; } }
+    if (dig) { for (i = 0; i < n; i++) if (row[i] >= A->Kp) { free(row); if (ss) free(ss); h_out("bad-op"); return; } }
+    else if ((int64_t) strlen((char *) row) != n) { free(row); if (ss) free(ss); h_out("bad-op"); return; }
+    msa = dig ? esl_msa_CreateDigital(A, 1, n) : esl_msa_Create(1, n);
+    esl_msa_SetSeqName(msa, 0, "s0", -1); msa->nseq = 1;
+    if (dig) { msa->ax[0][0] = msa->ax[0][n + 1] = eslDSQ_SENTINEL; memcpy(msa->ax[0] + 1, row, (size_t) n); }
+    else memcpy(msa->aseq[0], row, (size_t) n + 1);
+    if (ss) { msa->ss = malloc(sizeof(char *) * (size_t) msa->sqalloc); for (i = 0; i < msa->sqalloc; i++) msa->ss[i] = NULL; msa->ss[0] = strdup((char *) ss); }
+    st = esl_sq_FetchFromMSA(msa, 0, &sq);
+    if (h_exception_seen || st != eslOK || !sq) h_out("%s%s", h_exception_seen ? "exception " : "", h_status(h_exception_seen ? h_exception_seen : st));
+    else h_out("ok n=%" PRId64 " seq=%s ss=%s", sq->n, dig ? h_hex(sq->dsq, sq->n + 2) : h_hex(sq->seq, (int64_t) strlen(sq->seq)),
+               sq->ss ? h_hex(sq->ss + (dig ? 1 : 0), (int64_t) strlen(sq->ss + (dig ? 1 : 0))) : "null");
+    if (sq) esl_sq_Destroy(sq);
+    esl_msa_Destroy(msa); free(row); if (ss) free(ss);
+  }
   else if (!strcmp(op, "sqcopy")) {
     /* esl_sq_Copy between the four text/digital mode combinations; then esl_sq_Validate on the copy */
     const char *from = h_arg("from"), *to = h_arg("to"); int fd = from && !strcmp(from, "digital"), td = to && !strcmp(to, "digital");
